@@ -63,6 +63,25 @@ fn specs() -> Vec<CtxSpec> {
     ]
 }
 
+/// Two more histories, run on every prefix presented alone: a probe followed by
+/// a decode that fails its PEC check (an aborted transfer), and a decoded first
+/// fragment of a multi-packet message (SOM=1, EOM=0).
+fn history_specs() -> Vec<CtxSpec> {
+    let good = forge_request(0x10, 0x23, 0, false, 0x02, &[]);
+    let mut bad = good.clone();
+    let n = bad.len();
+    bad[n - 1] ^= 0x01;
+    let mut frag = crate::props::dec::raw_frame(0x10, 0x23, T_PCI, &[0x14, 0x14, 1, 2]);
+    frag[7] = 0x88;
+    fix_pec(&mut frag);
+    vec![
+        CtxSpec { cfg: Cfg::simple(0x23), history: vec![Event::GetLength(good[..3].to_vec()), Event::Decode(bad.clone())] },
+        CtxSpec { cfg: Cfg::simple(0x23), history: vec![Event::GetLength(good[..3].to_vec()), Event::Process(bad)] },
+        CtxSpec { cfg: Cfg::simple(0x23), history: vec![Event::Decode(frag.clone())] },
+        CtxSpec { cfg: Cfg::simple(0x23), history: vec![Event::Process(frag), Event::GetLength(good[..3].to_vec())] },
+    ]
+}
+
 pub fn run(run: &mut Run) {
     run.rule = "all 2^24 three-byte prefixes x {alone, +9x00, +9xFF, +second header} on two contexts rebuilt for every case (fresh; address 0x0F with a processed Set EID and three earlier probes in its history), 300-byte continuation for byte0=0x46, every string shorter than 3 bytes; non-trivial = byte1==0x0F (the accepting branch)".into();
     run.bound("prefixes", 1u64 << 24);
@@ -104,6 +123,25 @@ pub fn run(run: &mut Run) {
             }
         }
         acc.outcome("prefix.visited");
+    });
+    let hspecs = history_specs();
+    run.bound("history_contexts", hspecs.len() as u64);
+    run.sweep_chunked("all 2^24 prefixes presented alone on 4 contexts with probe/decode histories (failed-PEC transfer, first fragment)", 1u64 << 24, |acc, lo, hi| {
+        let owned: Vec<Owned> = hspecs.iter().map(|s| Owned::new(&s.cfg)).collect();
+        for i in lo..hi {
+            let p3 = [(i >> 16) as u8, (i >> 8) as u8, i as u8];
+            acc.evals += 1;
+            for (ci, (o, s)) in owned.iter().zip(&hspecs).enumerate() {
+                let ctx = build(o, &s.history);
+                let got = subject::get_length(&ctx, &p3);
+                acc.trans += 1 + s.history.len() as u64;
+                acc.validated += 1;
+                if let Some(d) = judge_one(&got, &p3) {
+                    acc.violation(1, "probe-after-history", d, || json!({"prop": "C17", "check": "probe-history", "spec": s, "input": hex(&p3), "ctx": ci}));
+                }
+            }
+        }
+        acc.outcome2("history", "visited");
     });
     run.sweep_chunked("byte0=0x46 prefixes x 300-byte continuation", 1 << 16, |acc, lo, hi| {
         let owned: Vec<Owned> = specs.iter().map(|s| Owned::new(&s.cfg)).collect();
@@ -155,6 +193,14 @@ pub fn run(run: &mut Run) {
 }
 
 pub fn replay(case: &Value) -> Result<ReplayOut, String> {
+    if case["check"].as_str() == Some("probe-history") {
+        let spec: CtxSpec = get_de(case, "spec")?;
+        let input = get_hex(case, "input")?;
+        let owned = Owned::new(&spec.cfg);
+        let ctx = build(&owned, &spec.history);
+        let got = subject::get_length(&ctx, &input);
+        return Ok(ReplayOut { violations: judge_one(&got, &input).into_iter().collect(), observed: format!("{:?}", got) });
+    }
     let input = get_hex(case, "input")?;
     let ci = get_u64(case, "ctx")? as usize;
     let specs = specs();
